@@ -10,4 +10,6 @@ FINDINGS = [
          site="cdd/shared/ast_utils.py:param2ast (typ == 'dict' branch: value=Dict(keys=[], values=...))",
          example="{'alpha': {'typ': 'dict', 'doc': 'the value'}} -> class Cfg: alpha: dict = {}"),
 ]
-FIXED = []
+FIXED = [
+    "fixed: property=C04 19dbe71 argparse: a default-less parameter typed Literal[1, 2] was emitted as add_argument(choices=(1, 2)) without type=int, so the populated parser rejected every value ('1' is not among the ints)",
+]
